@@ -743,6 +743,9 @@ impl<T: Object> Object for Option<T> {
                 // References to non-existing objects ought not to be an error
                 Err(PdfError::NullRef {..}) => Ok(None),
                 Err(PdfError::FreeObject {..}) => Ok(None),
+                // the same two errors as they come out of `Resolve::get` (typed, cached loads share their error)
+                Err(PdfError::Shared { ref source })
+                    if matches!(**source, PdfError::NullRef {..} | PdfError::FreeObject {..}) => Ok(None),
                 Err(e) if resolve.options().allow_error_in_option => {
                     warn!("ignoring {:?}", e);
                     Ok(None)
